@@ -7,6 +7,12 @@ same tree for sources that differ only in how a comparison or a negated if/else 
 
   * `while True:` whose first statement is `if C: break` (no else) is read as `while not C:`.
 
+  * tests are read in negation normal form: `not (A and B)` is `not A or not B`, `not (x is y)` is `x is not y`,
+    `not (x in y)` is `x not in y`, and in a boolean context `not not A` is `A`; an if/else whose test is a
+    conjunction/disjunction is oriented to the polarity with fewer negations (ties: the conjunction), and
+    `if x is not y: A else: B` / `if x not in y: A else: B` are read as `if x is y: B else: A` / `if x in y: B else: A`;
+  * `v = E; return v` where `v` is used nowhere else is read as `return E`.
+
 Positions are kept, so reports still point at the right line."""
 import ast
 
@@ -23,7 +29,105 @@ def _is_const(e):
     return False
 
 
+_NEGCMP = {ast.Is: ast.IsNot, ast.IsNot: ast.Is, ast.In: ast.NotIn, ast.NotIn: ast.In}
+
+
+def _negate(e, boolctx):
+    """expression equal to `not e` (as a truth value when boolctx, as a value otherwise)"""
+    if isinstance(e, ast.UnaryOp) and isinstance(e.op, ast.Not):
+        if boolctx:
+            return _test(e.operand)
+        inner = e.operand
+        if isinstance(inner, (ast.Compare, ast.BoolOp)) or (isinstance(inner, ast.UnaryOp) and isinstance(inner.op, ast.Not)):
+            pass
+        return ast.copy_location(ast.UnaryOp(op=ast.Not(), operand=e), e)
+    if isinstance(e, ast.BoolOp):
+        nop = ast.Or() if isinstance(e.op, ast.And) else ast.And()
+        return ast.copy_location(ast.BoolOp(op=nop, values=[_negate(v, True) for v in e.values]), e)
+    if isinstance(e, ast.Compare) and len(e.ops) == 1 and type(e.ops[0]) in _NEGCMP:
+        return ast.copy_location(ast.Compare(left=e.left, ops=[_NEGCMP[type(e.ops[0])]()], comparators=e.comparators), e)
+    return ast.copy_location(ast.UnaryOp(op=ast.Not(), operand=e), e)
+
+
+def _test(e):
+    """expression with the same truth value as e, negations pushed inward"""
+    if isinstance(e, ast.UnaryOp) and isinstance(e.op, ast.Not):
+        return _negate(e.operand, True)
+    if isinstance(e, ast.BoolOp):
+        return ast.copy_location(ast.BoolOp(op=e.op, values=[_test(v) for v in e.values]), e)
+    return e
+
+
+def _nots(e):
+    return sum(1 for x in ast.walk(e) if isinstance(x, ast.UnaryOp) and isinstance(x.op, ast.Not))
+
+
+def _polarity_key(e):
+    return (_nots(e), 0 if isinstance(e, ast.BoolOp) and isinstance(e.op, ast.And) else 1)
+
+
 class _Canon(ast.NodeTransformer):
+    def visit_UnaryOp(self, node):
+        self.generic_visit(node)
+        if isinstance(node.op, ast.Not):
+            o = node.operand
+            if isinstance(o, ast.BoolOp) or (isinstance(o, ast.Compare) and len(o.ops) == 1 and type(o.ops[0]) in _NEGCMP):
+                return _negate(o, True)
+        return node
+
+    def visit_IfExp(self, node):
+        self.generic_visit(node)
+        node.test = _test(node.test)
+        return node
+
+    def visit_Assert(self, node):
+        self.generic_visit(node)
+        node.test = _test(node.test)
+        return node
+
+    def visit_comprehension(self, node):
+        self.generic_visit(node)
+        node.ifs = [_test(t) for t in node.ifs]
+        return node
+
+    def _merge_returns(self, stmts, fn):
+        out = []
+        i = 0
+        while i < len(stmts):
+            s = stmts[i]
+            if (i + 1 < len(stmts) and isinstance(s, ast.Assign) and len(s.targets) == 1 and isinstance(s.targets[0], ast.Name)
+                    and isinstance(stmts[i + 1], ast.Return) and isinstance(stmts[i + 1].value, ast.Name) and stmts[i + 1].value.id == s.targets[0].id
+                    and self._uses.get(s.targets[0].id, 0) == 2):
+                out.append(ast.copy_location(ast.Return(value=s.value), s))
+                i += 2
+                continue
+            out.append(s)
+            i += 1
+        return out
+
+    def visit_FunctionDef(self, node):
+        uses = {}
+        for x in ast.walk(node):
+            if isinstance(x, ast.Name):
+                uses[x.id] = uses.get(x.id, 0) + 1
+            elif isinstance(x, ast.arg):
+                uses[x.arg] = uses.get(x.arg, 0) + 2
+            elif isinstance(x, (ast.Global, ast.Nonlocal)):
+                for n_ in x.names:
+                    uses[n_] = uses.get(n_, 0) + 2
+        saved = getattr(self, "_uses", {})
+        self._uses = uses
+        self.generic_visit(node)
+        for sub in ast.walk(node):
+            for f in ("body", "orelse", "finalbody"):
+                v = getattr(sub, f, None)
+                if isinstance(v, list) and v and isinstance(v[0], ast.stmt):
+                    setattr(sub, f, self._merge_returns(v, node))
+        self._uses = saved
+        return node
+
+    visit_AsyncFunctionDef = visit_FunctionDef
+
     def visit_Compare(self, node):
         self.generic_visit(node)
         if len(node.ops) == 1 and type(node.ops[0]) in _MIRROR:
@@ -35,21 +139,30 @@ class _Canon(ast.NodeTransformer):
 
     def visit_If(self, node):
         self.generic_visit(node)
-        t = node.test
-        if isinstance(t, ast.UnaryOp) and isinstance(t.op, ast.Not) and node.orelse and not (len(node.orelse) == 1 and isinstance(node.orelse[0], ast.If)):
-            return ast.copy_location(ast.If(test=t.operand, body=node.orelse, orelse=node.body), node)
+        node.test = t = _test(node.test)
+        if node.orelse and not (len(node.orelse) == 1 and isinstance(node.orelse[0], ast.If)):
+            if isinstance(t, ast.UnaryOp) and isinstance(t.op, ast.Not):
+                return ast.copy_location(ast.If(test=t.operand, body=node.orelse, orelse=node.body), node)
+            if isinstance(t, ast.Compare) and len(t.ops) == 1 and isinstance(t.ops[0], (ast.IsNot, ast.NotIn)):
+                # `x is not y` / `x not in y` and their `not (...)` spellings are one test: read the positive form
+                return ast.copy_location(ast.If(test=_negate(t, True), body=node.orelse, orelse=node.body), node)
+            if isinstance(t, ast.BoolOp):
+                nt = _negate(t, True)
+                if _polarity_key(nt) < _polarity_key(t):
+                    return ast.copy_location(ast.If(test=nt, body=node.orelse, orelse=node.body), node)
         return node
 
 
     def visit_While(self, node):
         self.generic_visit(node)
+        node.test = _test(node.test)
         if isinstance(node.test, ast.Constant) and node.test.value is True and not node.orelse and len(node.body) >= 2:
             f = node.body[0]
             if isinstance(f, ast.If) and not f.orelse and len(f.body) == 1 and isinstance(f.body[0], ast.Break):
                 t = f.test
                 nt = t.operand if isinstance(t, ast.UnaryOp) and isinstance(t.op, ast.Not) else ast.UnaryOp(op=ast.Not(), operand=t)
                 ast.copy_location(nt, t)
-                return ast.copy_location(ast.While(test=nt, body=node.body[1:], orelse=[]), node)
+                return ast.copy_location(ast.While(test=_test(nt), body=node.body[1:], orelse=[]), node)
         return node
 
 
